@@ -68,7 +68,13 @@ Types == << Struct(<<Field(A_, Prim("string")), Field(Id, Prim("int")), Field(AE
                      Field(Rel(<<Step("child", T_name("", <<"e">>)), Step("preceding", T_name("", <<"d">>))>>), Slice(Prim("int")))>>),
             \* values beyond 32 bits: 2^63 fits uint64 only, 2^40 fits both 64-bit kinds
             Struct(<<Field(NumE(Pow2(1, 63)), Prim("uint64")), Field(NumE(Pow2(1, 40)), Prim("int64")), Field(NumE(Pow2(1, 40)), Prim("uint64")),
-                     Field(NegE(NumE(Pow2(1, 40))), Prim("int64")), Field(NumE(Pow2(1, 63)), Slice(Prim("uint64")))>>),
+                     Field(NegE(NumE(Pow2(1, 40))), Prim("int64")), Field(NumE(Pow2(1, 63)), Slice(Prim("uint64"))),
+                     Field(NumE(NamedNum("three62")), Prim("uint64")), Field(NumE(NamedNum("three62")), Ptr(Prim("uint64")))>>),
+            \* a bare @x tag, evaluated at an element that also has a namespaced attribute of that local name (written first)
+            Struct(<<Field(B_, Struct(<<Field(Rel(<<Step("attribute", T_name("", <<"x">>))>>), Prim("string")),
+                                        Field(Rel(<<Step("attribute", T_name("", <<"x">>))>>), Slice(Prim("string"))),
+                                        Field(Rel(<<Step("attribute", T_name("", <<"n","o">>))>>), Prim("bool")),
+                                        Field(Rel(<<Step("attribute", T_name("p", <<"x">>))>>), Prim("bool"))>>))>>),
             Bound2, Struct(<<Field(Cc, Bound2)>>), Slice(Struct(<<Field(Rel(<<Self>>), Ptr(Bound2))>>)),
             Ptr(Struct(<<Field(A_, Prim("string"))>>)), Ptr(Ptr(Struct(<<Field(Id, Prim("int32"))>>))),
             Slice(Prim("string")), Slice(Prim("int")), Slice(Prim("float32")), Slice(Prim("bool")), Slice(Ptr(Prim("string"))),
